@@ -215,10 +215,49 @@ let judge_q relaxed op a got =
   | _ -> judge_call c got
 
 (* ---------------------------------------------------------------- parsers *)
+(* text token s<hex of the UTF-8 bytes> -> list of byte values *)
+let bytes_of_tok (t : string) : Zar.t list =
+  let h = String.sub t 1 (String.length t - 1) in
+  List.init (String.length h / 2) (fun i -> Zar.of_int (int_of_string ("0x" ^ String.sub h (2 * i) 2)))
+
+let err_name c = match Zar.to_int c with
+  | 0 -> "ok" | 1 -> "err NoDigits" | 2 -> "err InvalidDigit" | 3 -> "err UnsupportedRadix" | 4 -> "err InconsistentRadix"
+  | _ -> "panic"
+
+(* the index-level as-is models (Cross/ParseIdx.v) predict the exact outcome: ok / the ParseError kind / panic.
+   The verdict is the specification's (Ok or Err, never a panic); asis=same|diff is the model fidelity. *)
+let parser_model op a =
+  let r i = z (List.nth a i) in
+  let s i = bytes_of_tok (List.nth a i) in
+  match op with
+  | "ubig" -> Some (int_radix_code false (zi 10) (s 0))
+  | "ibig" -> Some (int_radix_code true (zi 10) (s 0))
+  | "ubig_radix" -> Some (int_radix_code false (r 0) (s 1))
+  | "ibig_radix" -> Some (int_radix_code true (r 0) (s 1))
+  | "ubig_prefix" -> Some (int_default_code false (zi 10) (s 0))
+  | "ibig_prefix" -> Some (int_default_code true (zi 10) (s 0))
+  | "ubig_default" -> Some (int_default_code false (r 0) (s 1))
+  | "ibig_default" -> Some (int_default_code true (r 0) (s 1))
+  | "rbig" | "relaxed" -> Some (ratio_radix_code (zi 10) (s 0))
+  | "rbig_radix" | "relaxed_radix" -> Some (ratio_radix_code (r 0) (s 1))
+  | "rbig_prefix" | "relaxed_prefix" -> Some (ratio_prefix_code (s 0))
+  | "fbig" | "repr" -> Some (float_parse_code (r 0) (s 1))
+  | _ -> None
+
 let judge_p op a got =
   (* parsers and deserialisers return Ok or Err on every input, whatever the radix argument *)
-  judge_call KTotal got |> fun v ->
-  if v.v = "pass" then { v with extra = (match got with "err" :: _ -> "nt=1 cls=parse-err" | _ -> "nt=1 cls=parse-ok") } else v
+  let v = judge_call KTotal got in
+  if v.v <> "pass" then v
+  else
+    let cls = (match got with "err" :: _ -> "cls=parse-err" | _ -> "cls=parse-ok") in
+    match parser_model op a with
+    | None -> { v with extra = "nt=1 " ^ cls }
+    | Some code ->
+        let want = err_name code in
+        let gots = String.concat " " got in
+        let wf = utf8_from O (bytes_of_tok (List.nth a (List.length a - 1))) in
+        { v with extra = Printf.sprintf "nt=1 asis=%s %s path=%s" (if want = gots && wf then "same" else "diff") cls
+                           (if want = "ok" then "model-ok" else "model-" ^ String.concat "" (List.tl (split_ws want))) }
 
 let judge op args got =
   let fam, name = match String.index_opt op '.' with
